@@ -16,6 +16,7 @@ type mapIter struct {
 	dom0    string // key set at creation
 	posBase string // base of the iterator position
 	ordinal int
+	str     *Term // range over a string: the string (mt is nil); the position is a byte offset
 }
 
 func (g *Gen) mapBases(st *state, mt *types.Map) (dom, val, card string, ks, vs string) {
@@ -105,6 +106,29 @@ func (fr *frame) lookup(x *ssa.Lookup, st *state) {
 
 func (fr *frame) rangeInstr(x *ssa.Range, st *state) {
 	g := fr.g
+	if bt, isStr := x.X.Type().Underlying().(*types.Basic); isStr && bt.Info()&types.IsString != 0 {
+		// range over a string: the cursor is a byte offset that advances by the width (1..4) of the rune read
+		g.nfresh++
+		sord := 0
+	countStr:
+		for _, b := range fr.fn.Blocks {
+			for _, ins := range b.Instrs {
+				if r, ok := ins.(*ssa.Range); ok {
+					sord++
+					if r == x {
+						break countStr
+					}
+				}
+			}
+		}
+		it := &mapIter{str: fr.val(x.X), posBase: fmt.Sprintf("IT_%sstr_%d", fr.prefix, g.nfresh), ordinal: sord}
+		g.base(st, it.posBase, "Int", 0, true)
+		nv := g.newVersion(st, it.posBase)
+		g.assert("(= " + nv + " 0)")
+		fr.iterOf[x] = it
+		fr.env[x] = &Term{S: "0", T: x.Type()}
+		return
+	}
 	mt, ok := x.X.Type().Underlying().(*types.Map)
 	if !ok {
 		g.rejectf("range over %s", x.X.Type())
@@ -158,6 +182,22 @@ func (fr *frame) nextInstr(x *ssa.Next, st *state) {
 	if it == nil {
 		g.rejectf("next on unknown iterator")
 		fr.env[x] = &Term{T: x.Type(), Tuple: []*Term{{S: "false", T: types.Typ[types.Bool]}, {S: "0"}, {S: "0"}}}
+		return
+	}
+	if it.str != nil {
+		pos := g.base(st, it.posBase, "Int", 0, true)
+		n := "(strlen " + it.str.S + ")"
+		g.assert("(=> " + st.cur + " (and (<= 0 " + pos + ") (<= " + pos + " " + n + ")))")
+		ok := "(< " + pos + " " + n + ")"
+		w := g.fresh(fr.name(x)+"_w", "Int")
+		g.assert("(and (<= 1 " + w + ") (<= " + w + " 4) (=> " + ok + " (<= (+ " + pos + " " + w + ") " + n + ")))")
+		r := g.fresh(fr.name(x)+"_rune", "Int")
+		g.assert("(and (<= 0 " + r + ") (<= " + r + " 1114111))")
+		k := g.fresh(fr.name(x)+"_k", "Int")
+		g.assert("(= " + k + " " + pos + ")")
+		nv := g.newVersion(st, it.posBase)
+		g.assert("(= " + nv + " (ite " + ok + " (+ " + pos + " " + w + ") " + pos + "))")
+		fr.env[x] = &Term{T: x.Type(), Tuple: []*Term{{S: ok, T: types.Typ[types.Bool]}, {S: k, T: types.Typ[types.Int]}, {S: r, T: types.Typ[types.Rune]}}}
 		return
 	}
 	dom, val, _, _, _ := g.mapBases(st, it.mt)
